@@ -163,7 +163,7 @@ Section Loop.
   Hypothesis Hidx : forall i T, nth_error trees i = Some T -> idx_ok T.
 
   (* one iteration of `while explore:` = one unfolding of the model's sample_loop (itr = len(visited)) *)
-  Lemma sample_row_step (c : nat) (rest V : list nat) (tmp : option sterm) (out : list (nat * sterm)) :
+  Lemma C17_bridge_sample_row_step (c : nat) (rest V : list nat) (tmp : option sterm) (out : list (nat * sterm)) :
     c < n ->
     gen_sample_row_step trees trunc n (adj_of T0) (c :: rest, length V, vec_of n out, tmp, V)
     = let push := rev (filter (fun s => negb (memb s V)) (nbrs1 n T0 c)) in
@@ -196,7 +196,7 @@ Section Loop.
   Definition st_out (st : st_ty) : list (option pcell) * list nat := let '(_, _, sampled, _, visited) := st in (sampled, visited).
 
   (* the while loop = the model's sample_loop: the row and the order of the visits *)
-  Lemma sample_row_loop (fuel : nat) :
+  Lemma C17_bridge_sample_row_loop (fuel : nat) :
     forall (X V : list nat) (tmp : option sterm) (out : list (nat * sterm)),
     (forall x, In x X -> x < n) ->
     option_map st_out (py_while fuel st_cond (gen_sample_row_step trees trunc n (adj_of T0)) (X, length V, vec_of n out, tmp, V))
@@ -211,7 +211,7 @@ Section Loop.
         assert (Hpush : forall x, In x (rev (filter (fun s => negb (memb s V)) (nbrs1 n T0 c)) ++ rest) -> x < n).
         { intros x Hx. apply in_app_or in Hx. destruct Hx as [Hx|Hx]; [|apply HX; right; exact Hx].
           apply in_rev in Hx. apply filter_In in Hx. destruct Hx as [Hx _]. apply In_nbrs1 in Hx. tauto. }
-        cbn [py_while st_cond py_list_truthy]. rewrite sample_row_step by exact Hc. cbv zeta.
+        cbn [py_while st_cond py_list_truthy]. rewrite C17_bridge_sample_row_step by exact Hc. cbv zeta.
         cbn [sample_loop]. change (nth 0 trees []) with T0.
         destruct (length V =? 0).
         * change (S (length V)) with (length (c :: V)). apply IH. exact Hpush.
@@ -237,7 +237,7 @@ Proof.
   change (nth 0 trees []) with T0. fold n.
   cbn [py_trees_get trees nth_error to_edges]. rewrite C17_bridge_get_adjacent_matrix by exact Hok.
   rewrite vec_of_nil.
-  pose proof (sample_row_loop T0 ts trunc Hidx (S (n * n)) [first_ind] [] None []) as H. cbn [length] in H.
+  pose proof (C17_bridge_sample_row_loop T0 ts trunc Hidx (S (n * n)) [first_ind] [] None []) as H. cbn [length] in H.
   fold trees n in H.
   assert (HX : forall x, In x [first_ind] -> x < n) by (intros x [<-|[]]; exact Hf).
   specialize (H HX).
@@ -264,7 +264,7 @@ Theorem C17_bridge_sample_row_trace :
 Proof.
   intros T0 ts trunc first_ind trees n Hf Hidx. rewrite vec_of_nil. unfold sample_trace. cbv zeta.
   change (nth 0 trees []) with T0. fold n.
-  apply (sample_row_loop T0 ts trunc Hidx (S (n * n)) [first_ind] [] None []).
+  apply (C17_bridge_sample_row_loop T0 ts trunc Hidx (S (n * n)) [first_ind] [] None []).
   intros x [<-|[]]; exact Hf.
 Qed.
 Print Assumptions C17_bridge_sample_row_trace.
